@@ -49,8 +49,9 @@ type Nest struct {
 // ScatterCase is a scatter history on one RegionScatterer.
 type ScatterCase struct {
 	World
-	Calls []Call `json:"calls"`
-	Seed  int64  `json:"seed"`
+	Calls  []Call       `json:"calls"`
+	Events []StoreEvent `json:"events,omitempty"`
+	Seed   int64        `json:"seed"`
 }
 
 var groupNames = []string{"t1", "t2", ""}
@@ -66,6 +67,7 @@ func genScatterCase(t *rapid.T) ScatterCase {
 	if simkit.Pct(t, 40, "longHistory") {
 		nCalls = simkit.IntU(t, 13, 40, "nCallsLong")
 	}
+	c.Events = genStoreEvents(t, len(c.Cluster.Stores), nCalls)
 	nr := len(c.Regions)
 	// a working set: histories that come back to the same regions
 	hot := simkit.IntU(t, 1, min(nr, 8), "workingSet")
@@ -122,7 +124,7 @@ type scatterStats struct {
 	perGroup                                            map[int]int
 	collapse, forced, handBack                          bool
 	byID, byRange, unknownReported                      bool
-	nested, nestMissed, conc, serialised                int
+	nested, nestMissed, conc, serialised, fellSilent    int
 }
 
 // hookCluster is the cluster the scatterer works on: the mock cluster, plus a
@@ -192,6 +194,8 @@ func runScatterCase(c ScatterCase) (vkit.Info, error) {
 	info.ClassIf(first.byID, "ScatterRegionsByID")
 	info.ClassIf(first.byRange, "ScatterRegionsByRange")
 	info.ClassIf(first.unknownReported, "unknown-region-reported")
+	info.ClassIf(first.fellSilent > 0, "store-fell-silent-after-first-use")
+	info.ClassIf(len(c.Events) > 0, "store-event")
 	info.ClassIf(first.nested > 0, "nested-scatter-inside-scatter")
 	info.ClassIf(first.nestMissed > 0, "nest-point-not-reached")
 	info.ClassIf(first.conc > 0, "concurrent-scatter-goroutines")
@@ -238,6 +242,9 @@ func runScatterOnce(c *ScatterCase, x *opCtx, rep int) (*scatterStats, error) {
 	}
 	defer l.cancel()
 	st := &scatterStats{perGroup: map[int]int{}}
+	xx := *x
+	xx.c = &l.spec // the oracle follows the store events of this execution
+	x = &xx
 	hc := &hookCluster{Cluster: l.mc}
 	sc := schedule.NewRegionScatterer(l.ctx, hc)
 	engineMapKnown := vkit.Known(keyEngineMap)
@@ -283,6 +290,9 @@ func runScatterOnce(c *ScatterCase, x *opCtx, rep int) (*scatterStats, error) {
 	}
 
 	for ci, call := range c.Calls {
+		if ci >= 1 {
+			st.fellSilent += l.applyEvents(c.Events, ci)
+		}
 		group := groupNames[call.Group%len(groupNames)]
 		switch call.Kind {
 		case "conc":
